@@ -1919,7 +1919,11 @@ def m_hashmap_entry(ex, st, fr, path, args, m):
             elif re.match(r"^(?:std::vec::)?Vec<", vt):
                 val = VecObj([], vt)
             else:
-                raise Unsupported("hash_map::Entry::or_default for value type " + vt)
+                # a crate type with (derived) Default: run the real impl
+                dflt = ex.resolve_method(vt.split("::")[-1], "Default", "default")
+                if dflt is None:
+                    raise Unsupported("hash_map::Entry::or_default for value type " + vt)
+                val = ex.call_sync(st, dflt[0], [], dict(dflt[1]))
         # the closure may have forked; re-read the entries of the (possibly restored) state
         ents = hashmap_entries(r)
         ents.append(Agg("tuple", [key, val]))
